@@ -65,12 +65,18 @@ impl St {
     fn tree(&mut self, enc: &str, ignore_name: &str) -> PathBuf {
         let key = format!("{ignore_name}\t{enc}");
         if key == self.tree_key { return self.tree_root.clone(); }
-        if !self.tree_key.is_empty() { let _ = std::fs::remove_dir_all(&self.tree_root); }
+        if !self.tree_key.is_empty() {
+            let _ = std::fs::remove_dir_all(&self.tree_root);
+            let _ = std::fs::remove_dir_all(self.tree_root.with_extension("ext"));
+        }
         self.counter += 1;
         let root = self.base.join(format!("t{}", self.counter));
         let _ = std::fs::remove_dir_all(&root);
         std::fs::create_dir_all(&root).unwrap();
+        let ext = self.base.join(format!("t{}.ext", self.counter));     // rule files outside the walked tree
+        let _ = std::fs::remove_dir_all(&ext);
         let mut ignores = vec![];
+        let mut shapes: Vec<(String, String)> = vec![];
         for e in enc.split(';').filter(|e| !e.is_empty()) {
             let (k, rest) = e.split_at(1);
             match k {
@@ -89,13 +95,64 @@ impl St {
                     let (d, c) = rest.split_once(':').unwrap();
                     ignores.push((unhex(d), unhex(c)));
                 }
+                "S" => {
+                    // file-system shape of the ignore file of a directory: `S<dir>:<shape|arg|arg>`
+                    let (d, sh) = rest.split_once(':').unwrap();
+                    shapes.push((unhex(d), unhex(sh)));
+                }
                 _ => {}
             }
         }
+        // "../" for every component of `dir` (relative to the root), then `to`
+        let rel_from = |dir: &str, to: &str| -> String {
+            let up = dir.split('/').filter(|c| !c.is_empty()).count();
+            format!("{}{}", "../".repeat(up), to)
+        };
+        let place = |p: &Path, content: &str| {
+            std::fs::create_dir_all(p.parent().unwrap()).unwrap();
+            let _ = std::fs::remove_file(p);
+            std::fs::write(p, content).unwrap();
+        };
+        let link = |at: &Path, target: &str| {
+            std::fs::create_dir_all(at.parent().unwrap()).unwrap();
+            let _ = std::fs::remove_file(at);
+            std::os::unix::fs::symlink(target, at).unwrap();
+        };
         for (d, c) in ignores {
-            let dir = root.join(d);
+            let dir = root.join(&d);
             std::fs::create_dir_all(&dir).unwrap();
-            std::fs::write(dir.join(ignore_name), c).unwrap();
+            let at = dir.join(ignore_name);
+            let shape = shapes.iter().find(|(sd, _)| *sd == d).map(|(_, sh)| sh.clone()).unwrap_or_else(|| "regular".into());
+            let f: Vec<&str> = shape.split('|').collect();
+            match f.as_slice() {
+                ["rel-inside", rule] => { place(&root.join(rule), &c); link(&at, &rel_from(&d, rule)); }
+                ["abs-inside", rule] => { place(&root.join(rule), &c); link(&at, &root.join(rule).to_string_lossy()); }
+                ["rel-outside", name] => {
+                    place(&ext.join(name), &c);
+                    link(&at, &rel_from(&d, &format!("../{}/{}", ext.file_name().unwrap().to_string_lossy(), name)));
+                }
+                ["abs-outside", name] => { place(&ext.join(name), &c); link(&at, &ext.join(name).to_string_lossy()); }
+                ["chain", second, rule] => {
+                    // <dir>/<ignore file> -> <second> (a link in the tree) -> <rule> (a file in the tree)
+                    place(&root.join(rule), &c);
+                    let sdir = Path::new(second).parent().map(|p| p.to_string_lossy().to_string()).unwrap_or_default();
+                    link(&root.join(second), &rel_from(&sdir, rule));
+                    link(&at, &rel_from(&d, second));
+                }
+                ["hard", rule] => {
+                    place(&root.join(rule), &c);
+                    let _ = std::fs::remove_file(&at);
+                    std::fs::hard_link(root.join(rule), &at).unwrap();
+                }
+                _ => std::fs::write(&at, c).unwrap(),
+            }
+        }
+        for (d, shape) in &shapes {
+            // shapes that load nothing and therefore have no `I` entry
+            let f: Vec<&str> = shape.split('|').collect();
+            if let ["todir", target] = f.as_slice() {
+                link(&root.join(d).join(ignore_name), &rel_from(d, target));
+            }
         }
         self.tree_key = key;
         self.tree_root = root.clone();
